@@ -386,6 +386,29 @@ pub fn near_immobile_pos(x_gold: bool, imm: &[(u8, u8, u8)], sel: u8, gold_to_mo
         let c = b.at(p);
         b.0[p as usize] = m::EMPTY;
         b.0[n as usize] = c;
+        // in some positions the piece is taken one or two steps further back (so that it reaches the
+        // immobilised arrangement only with its second or third step); officers only, rabbits cannot go back
+        let extra = (mn_sel % 3) as usize;
+        let mut at = n;
+        let mut z = crate::core::mix64(sel as u64 * 131 + mn_sel as u64);
+        if m::kind(c) != m::R {
+            for _ in 0..extra {
+                z = crate::core::mix64(z);
+                let opts: Vec<u8> = m::neighbours(at).filter(|&q| q != p && b.at(q) == m::EMPTY && !m::is_trap(q)).collect();
+                if opts.is_empty() {
+                    break;
+                }
+                let q = opts[(z % opts.len() as u64) as usize];
+                let mut t = b;
+                t.0[at as usize] = m::EMPTY;
+                t.0[q as usize] = c;
+                if t.is_frozen(q) {
+                    break;
+                }
+                b = t;
+                at = q;
+            }
+        }
     }
     for &t in m::TRAPS.iter() {
         let c = b.at(t);
@@ -785,13 +808,15 @@ mod tests {
     #[test]
     fn special_starts_are_legal() {
         let mut runner = TestRunner::new(Config { rng_seed: RngSeed::Fixed(11), ..Config::default() });
-        for _ in 0..20000 {
+        for i in 0..20000 {
             let p = motif().new_tree(&mut runner).unwrap().current();
             assert!(p.board.within_complement(), "{:?}", crate::core::board_text(&p.board));
             assert!(p.board.traps_legal(), "{:?}", crate::core::board_text(&p.board));
-            let o = open().new_tree(&mut runner).unwrap().current();
-            assert!(o.board.within_complement() && o.board.traps_legal(), "{:?}", crate::core::board_text(&o.board));
-            assert!(o.board.has_rabbit(true) && o.board.has_rabbit(false) && !o.board.rabbit_on_goal(true) && !o.board.rabbit_on_goal(false), "{:?}", crate::core::board_text(&o.board));
+            if i % 40 == 0 {
+                let o = open().new_tree(&mut runner).unwrap().current();
+                assert!(o.board.within_complement() && o.board.traps_legal(), "{:?}", crate::core::board_text(&o.board));
+                assert!(o.board.has_rabbit(true) && o.board.has_rabbit(false) && !o.board.rabbit_on_goal(true) && !o.board.rabbit_on_goal(false), "{:?}", crate::core::board_text(&o.board));
+            }
             let q = near_immobile().new_tree(&mut runner).unwrap().current();
             assert!(q.board.within_complement(), "{:?}", crate::core::board_text(&q.board));
             assert!(q.board.traps_legal(), "{:?}", crate::core::board_text(&q.board));
